@@ -224,7 +224,11 @@ def constant_value_from_json(value: object) -> object:
                 return float("nan")
             raise NotImplementedError(f"Unsupported float value: {value}")
         if "string" in value:
-            return literal_eval(value["string"])
+            string = literal_eval(value["string"])
+            # Any other literal (a list, a dict, a number) is not a string constant
+            if not isinstance(string, str):
+                raise ValueError(f"Expected the literal of a string: {value}")
+            return string
         if "type" in value and value["type"] == "ellipsis":
             return ...
         if "real" in value:
